@@ -48,8 +48,8 @@ MAX_TIE_REPORTS = 2
 # every generated file the Threshold model is built from -> sha256 of its content as lifted from the pinned tree
 PINNED_GENERATED = {
     "ThresholdTables.lean": PINNED_TABLES_SHA256,
-    "TradeoffSrc.lean": "2411eff130ddf215fd55dce7de4a6d7f84552638d6c42a80f166a5ed92c0dc9f",
-    "ThresholderSrc.lean": "60c4e7a52add3ca98ac97b54ab0f52a748037edc7e9dd85958bc1203e46d2c3e",
+    "TradeoffSrc.lean": "d61ccec458631118203af93bf40a727da5c5059713053a9a641d539aa80a4059",
+    "ThresholderSrc.lean": "e8eca555041924fd761db20bc5b1ecc2f78490203f85fbd3c516d3929ba7ff4c",
     "ThresholdFitSrc.lean": "b4c864c257fde297b40071a4c32b225e4e2c34903cb8005de94db88f04dbf5f6",
 }
 
@@ -88,6 +88,39 @@ def tables_changed():
                 pass
         _TABLES_STATE["v"] = changed
     return _TABLES_STATE["v"]
+
+
+def tie_broken():
+    """the source under check is KNOWN to differ from the pinned tree in lifted text: a generated file changed, or one of
+    the Threshold lifters refuses the source (then the generated files keep their old content)"""
+    if "broken" not in _TABLES_STATE:
+        broken = tables_changed()
+        if not broken:
+            from . import translate
+            from .core import REPO
+            from .lifters import threshold, thresholder, thresholdfit, tradeoff
+            for fn in (threshold.lift_threshold, tradeoff.lift_tradeoff, thresholder.lift_thresholder,
+                       thresholdfit.lift_thresholdfit):
+                try:
+                    fn(REPO)
+                except translate.Untranslatable:
+                    broken = True
+                except OSError:
+                    pass
+        _TABLES_STATE["broken"] = broken
+    return _TABLES_STATE["broken"]
+
+
+def cap_when_tie_broken(probs):
+    """With a broken tie nearly every case shows `implementation != model`; the runner stops exploring after 5 violating
+    cases, so such correspondence-only results are passed on for the first MAX_TIE_REPORTS cases only.  Cases on which the
+    implementation fails the property's own oracle (kind 'property') are always passed on: the exploration goes on until
+    one is found or the budget ends, and the verdict prefers it."""
+    probs = [p for p in probs if p is not None and p.kind != "tie-noted"]
+    if not probs or not tie_broken() or any(p.kind in ("property", "harness") for p in probs):
+        return probs
+    _TABLES_STATE["corr_only"] = _TABLES_STATE.get("corr_only", 0) + 1
+    return probs if _TABLES_STATE["corr_only"] <= MAX_TIE_REPORTS else []
 
 
 def model_problem(msg, pid):
@@ -150,13 +183,17 @@ def gen_case(rng, tier, small=False):
         obj = rng.choice(["accuracy_score"] * 7 + ["balanced_accuracy_score"] * 7 + OBJ_SIMPLE[2:] * 2)
     ng = rng.choice([2, 2, 2, 3, 3, 4, 5])
     style = rng.random()
-    if style < 0.55:      # heavy ties: few levels
+    near = None
+    if style < 0.45:      # heavy ties: few levels
         nl = rng.choice([2, 3, 3, 4, 5, 6])
         levels = rng.sample([F(k, 8) for k in range(-4, 13)], nl)
-    elif style < 0.8:     # distinct dyadics
+    elif style < 0.63:    # distinct dyadics
         levels = None
-    else:                 # integer valued "hard" predictions 0/1 (what predict of a classifier returns)
+    elif style < 0.78:    # integer valued "hard" predictions 0/1 (what predict of a classifier returns)
         levels = [F(0), F(1)]
+    else:                 # NEAR-TIES: clusters of pairwise distinct scores that differ by a few 2^t ulps (t drawn over
+        #                   the whole range down to 2 ulps), mixed with exact ties and well separated scores
+        levels, near = near_tie_levels(rng)
     rows = []
     for g in range(ng):
         if small:
@@ -171,6 +208,15 @@ def gen_case(rng, tier, small=False):
             sc = [rng.choice(levels) for _ in range(m)]
             if len(set(sc)) == 1:        # tied by chance: draw once more
                 sc = [rng.choice(levels) for _ in range(m)]
+            if near is not None and rng.random() < 0.7:
+                # the group sees every rung of one ladder (plus ties / other levels)
+                ladder = rng.choice(near)
+                extra = [rng.choice(levels) for _ in range(max(m - len(ladder), rng.choice([1, 2, 3])))]
+                sc = list(ladder) + extra
+                rng.shuffle(sc)
+                m = len(sc)
+                labs = [0, 1] + [rng.randint(0, 1) for _ in range(m - 2)]
+                rng.shuffle(labs)
             if rng.random() < 0.05:      # uninformative group: all scores tied (ROC hull = diagonal)
                 sc = [sc[0]] * m
         informative = rng.random() < 0.7
@@ -200,6 +246,36 @@ def gen_case(rng, tier, small=False):
             "yname": rng.random() < 0.5}
 
 
+def _ulp(x):
+    return F(math.ulp(float(x)))
+
+
+def near_tie_levels(rng):
+    """score levels for the near-tie stream: 1-3 bases k/8, around each a cluster base + j * 2^t * ulp(base) with small
+    integer j and t >= 1 (so that the midpoint of any two members is again exactly representable: the implementation's
+    float midpoint IS the exact midpoint), t spread over 1..44, i.e. relative distances from 2^-51 up to 2^-8; plus a few
+    well separated levels.  Every level is an exactly representable double; scores are compared exactly everywhere."""
+    bases = rng.sample([F(k, 8) for k in range(1, 13)], rng.choice([1, 2, 2, 3]))
+    out = set()
+    ladders = []
+    for b in bases:
+        u = (2 ** rng.randint(1, 44)) * _ulp(b)
+        if rng.random() < 0.6:
+            # a LADDER base, base - u, base - 2u, ... (3-7 rungs, now and then one rung missing): whatever the scale of u,
+            # some pairs of rungs are closer than others by less than a factor 2
+            rungs = [b - j * u for j in range(rng.choice([3, 4, 5, 6, 7]))]
+            if len(rungs) > 3 and rng.random() < 0.3:
+                rungs.pop(rng.randrange(1, len(rungs)))
+        else:
+            rungs = sorted({b + rng.randint(-3, 3) * u * rng.choice([1, 1, 2, 4]) for _ in range(rng.choice([2, 3, 4, 5]))})
+        ladders.append(rungs)
+        out.update(rungs)
+    for _ in range(rng.choice([0, 1, 2])):
+        out.add(F(rng.randint(-4, 12), 8))
+    assert all(F(float(v)) == v for v in out)
+    return sorted(out), ladders
+
+
 def gen_query(rng, rows):
     """query rows for the PREDICT path: training rows, scores exactly ON a candidate threshold (midpoints between
     consecutive distinct scores of the group), unseen scores between / beyond the training scores, +-large scores, and now
@@ -214,6 +290,11 @@ def gen_query(rng, rows):
         if mids:
             q.append([g, str(rng.choice(mids))])
         q.append([g, str(rng.choice(lv) + rng.choice([F(-1, 128), F(1, 128), F(1, 256)]))])
+        if rng.random() < 0.5:      # just above / below a training score or a candidate threshold, at a random small scale
+            v = rng.choice(lv + mids)
+            w = v + rng.choice([-3, -1, 1, 2]) * (2 ** rng.randint(0, 40)) * _ulp(v if v != 0 else F(1, 8))
+            if F(float(w)) == w:
+                q.append([g, str(w)])
         if rng.random() < 0.5:
             q.append([g, str(rng.choice([F(-1000), F(1000), lv[0] - 1, lv[-1] + 1]))])
     if rng.random() < 0.15:
@@ -235,7 +316,10 @@ def exhaustive_cases(ngroups, nlevels, max_rows, cfg_cycle):
                 continue
             cons, obj, flip, grid = cfg_cycle[k % len(cfg_cycle)]
             k += 1
-            yield {"constraint": cons, "objective": obj, "flip": flip, "grid": grid,
+            # predict path, exhaustively for the small scope: every group at EVERY level, every midpoint between levels
+            # (= every candidate threshold), one step below / above the range, and an unseen sensitive-feature value
+            query = [[g, str(F(q, 4))] for g in range(ngroups) for q in range(-1, 2 * nlevels)] + [[-1, "1/2"]]
+            yield {"constraint": cons, "objective": obj, "flip": flip, "grid": grid, "query": query, "pseed": k,
                    "rows": [[g, l, str(F(s, 2))] for g, l, s in combo], "container": "ndarray", "gnames": "str"}
 
 
@@ -282,6 +366,19 @@ def index_labels(kind, perm, n):
     if kind == "str":
         return [f"r{int(v)}" for v in perm[:n]]
     return None
+
+
+def midpoint_rounds_onto_score(case):
+    """predicate of known finding F17: some group has two consecutive DISTINCT scores a > b whose binary64 midpoint
+    (a + b) / 2 -- computed as the implementation computes it -- is not strictly between them"""
+    gs, rows = groups_of(case)
+    for g in gs:
+        lv = sorted({float(s) for s, _ in rows[g]}, reverse=True)
+        for a, b in zip(lv, lv[1:]):
+            t = (a + b) / 2
+            if not (b < t < a):
+                return True
+    return False
 
 
 def shrink_case(case):
@@ -743,6 +840,10 @@ def case_tags(case, o):
         tags.append("group-with-all-scores-tied")
     if any(len({s for s, _ in rows[g]}) < len(rows[g]) for g in gs):
         tags.append("ties-in-group")
+    gaps = [float((b - a) / max(abs(a), abs(b))) for g in gs
+            for a, b in zip(sorted({s for s, _ in rows[g]}), sorted({s for s, _ in rows[g]})[1:]) if max(abs(a), abs(b)) > 0]
+    if gaps and min(gaps) < 1e-6:
+        tags.append("near-tie-scores(rel gap " + ("<1e-12" if min(gaps) < 1e-12 else "<1e-9" if min(gaps) < 1e-9 else "<1e-6") + ")")
     if case.get("query"):
         tags.append("predict-path-query")
         if any(g == -1 for g, _ in case["query"]):
